@@ -136,6 +136,29 @@ def realActivation (f : Float → Float) (inScale outScale : Float) (inZp outZp 
 
 def logistic (x : Float) : Float := 1.0 / (1.0 + Float.exp (-x))
 
+/-- source coordinate of RESIZE_NEAREST_NEIGHBOR for an exact 1/2^k scale given as `num/den` -/
+def nearestSrc (y num den : Nat) (alignCorners halfPixel : Bool) (inSize : Nat) : Nat :=
+  -- position = (y + offset) * num / den with offset 1/2 when half_pixel_centers
+  let n2 := (2 * y + (if halfPixel then 1 else 0)) * num      -- twice the numerator
+  let d2 := 2 * den
+  let v := if alignCorners then (2 * n2 + d2) / (2 * d2) else n2 / d2     -- round half away / floor
+  min v (inSize - 1)
+
+/-- bilinear interpolation in double precision (reference_ops::ResizeBilinear), rounded to nearest -/
+def bilinearAt (H W : Nat) (ifm : Nat → Nat → Float) (oy ox : Nat) (sy sx : Float) (halfPixel : Bool) : Float :=
+  let pos := fun (o : Nat) (sc : Float) => if halfPixel then (Float.ofNat o + 0.5) * sc - 0.5 else Float.ofNat o * sc
+  let iy := pos oy sy
+  let ix := pos ox sx
+  let fy := Float.floor iy
+  let fx := Float.floor ix
+  let y0 := (max fy 0.0).toUInt64.toNat
+  let x0 := (max fx 0.0).toUInt64.toNat
+  let y1 := min ((max (Float.ceil iy) 0.0).toUInt64.toNat) (H - 1)
+  let x1 := min ((max (Float.ceil ix) 0.0).toUInt64.toNat) (W - 1)
+  let dy := iy - fy
+  let dx := ix - fx
+  ifm y0 x0 * (1.0 - dy) * (1.0 - dx) + ifm y0 x1 * (1.0 - dy) * dx + ifm y1 x0 * dy * (1.0 - dx) + ifm y1 x1 * dy * dx
+
 /-! ## Output size and padding -/
 
 def outSize (same : Bool) (inp stride effK : Nat) : Nat :=
@@ -225,6 +248,46 @@ def depthwise (x w : Tensor) (bias : Option Tensor) (p : ConvP) (depthMult : Nat
         let acc := acc + (match bias with | some b => b.data.getD oc 0 | none => 0)
         let v := requant p.acc64 acc (p.mult.getD oc 0) (p.shift.getD oc 0) + p.outOff
         out := out.push (clamp v p.actMin p.actMax)
+  return { shape := [1, oh, ow, O], data := out }
+
+/-- TRANSPOSE_CONV (reference_integer_ops::TransposeConv): every input element scatters `(in + inOff) * w` into the
+    output positions `in * stride - pad + f`; here written as a gather over the output -/
+def transposeConvAcc (H W C : Nat) (ifm : Nat → Nat → Nat → Int) (kh kw : Nat) (wgt : Nat → Nat → Nat → Int)
+    (sh sw : Nat) (pt pl : Nat) (inOff : Int) (oy ox : Nat) : Int :=
+  sumRange kh fun fy => sumRange kw fun fx =>
+    -- oy = iy * sh - pt + fy  ⇒  iy = (oy + pt - fy) / sh when divisible
+    if oy + pt ≥ fy ∧ ox + pl ≥ fx ∧ sh > 0 ∧ sw > 0 then
+      let ny := oy + pt - fy
+      let nx := ox + pl - fx
+      if ny % sh = 0 ∧ nx % sw = 0 ∧ ny / sh < H ∧ nx / sw < W then
+        sumRange C fun ic => (ifm (ny / sh) (nx / sw) ic + inOff) * wgt fy fx ic
+      else 0
+    else 0
+
+def transposeConv (x w : Tensor) (bias : Option Tensor) (p : ConvP) (outShape : List Nat) (lo hi : Int) : Except String Tensor := do
+  let [n, H, W, C] := x.shape | throw "tconv: input rank"
+  let [O, kh, kw, wc] := w.shape | throw "tconv: filter rank"
+  let [_, oh, ow, oc] := outShape | throw "tconv: output rank"
+  if n ≠ 1 then throw "unsupported:batch"
+  if wc ≠ C ∨ oc ≠ O then throw "tconv: filter depth"
+  if p.mult.size ≠ O ∨ p.shift.size ≠ O then throw "tconv: multiplier count"
+  -- padding from the *output* size (the input of the corresponding forward convolution)
+  let fo_h := outSize p.same oh p.sh kh
+  let fo_w := outSize p.same ow p.sw kw
+  let tot_h := (fo_h - 1) * p.sh + kh
+  let tot_w := (fo_w - 1) * p.sw + kw
+  let pt := if tot_h > oh then (tot_h - oh) / 2 else 0
+  let pl := if tot_w > ow then (tot_w - ow) / 2 else 0
+  let ifm := fun y xx c => at3 x W C y xx c
+  let mut out : Array Int := Array.mkEmpty (oh * ow * O)
+  for oy in [0:oh] do
+    for ox in [0:ow] do
+      for o in [0:O] do
+        let wgt := fun fy fx ic => w.data.getD (((o * kh + fy) * kw + fx) * C + ic) 0 + p.wOff
+        let acc := transposeConvAcc H W C ifm kh kw wgt p.sh p.sw pt pl p.inOff oy ox
+        let acc := acc + (match bias with | some b => b.data.getD o 0 | none => 0)
+        let v := requant p.acc64 acc (p.mult.getD o 0) (p.shift.getD o 0) + p.outOff
+        out := out.push (clamp v lo hi)
   return { shape := [1, oh, ow, O], data := out }
 
 def fullyConnected (x w : Tensor) (bias : Option Tensor) (p : ConvP) (outShape : List Nat) : Except String Tensor := do
@@ -390,6 +453,7 @@ abbrev Env := Array (Option Tensor)
 def Graph.zp (g : Graph) (t : Nat) : Int := ((g.tensors[t]?.map (·.zps)).getD []).getD 0 0
 def Graph.dtype (g : Graph) (t : Nat) : DType := (g.tensors[t]?.map (·.dtype)).getD .i8
 def Graph.shape (g : Graph) (t : Nat) : List Nat := (g.tensors[t]?.map (·.shape)).getD []
+def Graph.scales (g : Graph) (t : Nat) : List Nat := (g.tensors[t]?.map (·.scales)).getD []
 
 def getIn (env : Env) (op : OpDef) (k : Nat) : Except String Tensor :=
   match op.ins[k]? with
@@ -419,10 +483,10 @@ def pN (op : OpDef) (g k : Nat) : Nat := (pI op g k).toNat
     0 exact, 1 approximated (within one step), 2 pass-through (memory-only or monotone 1-Lipschitz) -/
 def opClass (g : Graph) (op : OpDef) : Option Nat :=
   match op.kind with
-  | "CONV_2D" | "DEPTHWISE_CONV_2D" | "FULLY_CONNECTED" | "ADD" | "SUB" | "MUL" | "QUANTIZE" | "LEAKY_RELU" => some 0
+  | "CONV_2D" | "DEPTHWISE_CONV_2D" | "FULLY_CONNECTED" | "ADD" | "SUB" | "MUL" | "QUANTIZE" | "LEAKY_RELU" | "TRANSPOSE_CONV" => some 0
   | "MAX_POOL_2D" | "RELU" | "RELU6" | "RELU_N1_TO_1" | "MINIMUM" | "MAXIMUM" | "RESHAPE" | "SQUEEZE" | "EXPAND_DIMS"
   | "CONCATENATION" | "SPLIT" | "STRIDED_SLICE" | "PAD" => some 2
-  | "LOGISTIC" | "TANH" => some 1
+  | "LOGISTIC" | "TANH" | "RESIZE_BILINEAR" | "RESIZE_NEAREST_NEIGHBOR" | "MEAN" => some 1
   | "AVERAGE_POOL_2D" =>
     -- padding that actually occurs makes the operator one of the documented approximations
     match g.shape (inId op 0) with
@@ -452,6 +516,16 @@ def evalOp (g : Graph) (env : Env) (op : OpDef) : Except String (List Tensor) :=
   | "DEPTHWISE_CONV_2D" =>
     let x ← getIn env op 0; let w ← getIn env op 1; let b ← getInOpt env op 2
     return [← depthwise x w b (convParams g op) (pN op 0 7)]
+  | "TRANSPOSE_CONV" =>
+    -- inputs: weights, input, bias (the output-shape tensor is dropped by the harness); params: sh, sw, same | mults | shifts
+    let w ← getIn env op 0; let x ← getIn env op 1; let b ← getInOpt env op 2
+    let o := outId op 0
+    let dt := g.dtype o
+    let p : ConvP := { sh := pN op 0 0, sw := pN op 0 1, dh := 1, dw := 1, same := pI op 0 2 = 1, inOff := -(g.zp (inId op 1)),
+                       wOff := -(g.zp (inId op 0)), outOff := g.zp o, mult := (grp op 1).toArray, shift := (grp op 2).toArray,
+                       actMin := dt.lo, actMax := dt.hi, acc64 := false }
+    if g.dtype (inId op 1) == .i16 then throw "unsupported:TRANSPOSE_CONV:int16"
+    return [← transposeConv x w b p (g.shape o) dt.lo dt.hi]
   | "FULLY_CONNECTED" =>
     let x ← getIn env op 0; let w ← getIn env op 1; let b ← getInOpt env op 2
     let o := outId op 0
@@ -510,6 +584,56 @@ def evalOp (g : Graph) (env : Env) (op : OpDef) : Except String (List Tensor) :=
       let f := if op.kind == "TANH" then Float.tanh else logistic
       return [unary a (realActivation f (f32ToFloat si) (f32ToFloat so) (g.zp i) (g.zp o) dt.lo dt.hi)]
     | _, _ => throw s!"unsupported:{op.kind}:quantisation"
+  | "RESIZE_NEAREST_NEIGHBOR" | "RESIZE_BILINEAR" =>
+    -- params: align_corners, half_pixel_centers
+    let a ← getIn env op 0
+    let [n, H, W, C] := a.shape | throw "resize: input rank"
+    let [_, OH, OW, _] := g.shape (outId op 0) | throw "resize: output rank"
+    if n ≠ 1 ∨ H = 0 ∨ W = 0 ∨ OH = 0 ∨ OW = 0 then throw "unsupported:batch"
+    let align := pI op 0 0 = 1
+    let half := pI op 0 1 = 1
+    let (nh, dh) := if align ∧ OH > 1 then (H - 1, OH - 1) else (H, OH)
+    let (nw, dw) := if align ∧ OW > 1 then (W - 1, OW - 1) else (W, OW)
+    let dt := g.dtype (outId op 0)
+    let mut out : Array Int := Array.mkEmpty (OH * OW * C)
+    for oy in [0:OH] do
+      for ox in [0:OW] do
+        for c in [0:C] do
+          if op.kind == "RESIZE_NEAREST_NEIGHBOR" then
+            out := out.push (at3 a W C (nearestSrc oy nh dh align half H) (nearestSrc ox nw dw align half W) c)
+          else
+            let v := bilinearAt H W (fun y x => Float.ofInt (at3 a W C y x c)) oy ox (Float.ofNat nh / Float.ofNat dh) (Float.ofNat nw / Float.ofNat dw) half
+            out := out.push (clamp (Float.round v).toInt64.toInt dt.lo dt.hi)
+    return [{ shape := [1, OH, OW, C], data := out }]
+  | "MEAN" =>
+    -- params: group 0 = reduced axes (of the 4-D input: only H and/or W)
+    let a ← getIn env op 0
+    let [n, H, W, C] := a.shape | throw "unsupported:MEAN:rank"
+    let axes := (grp op 0).map Int.toNat
+    if n ≠ 1 ∨ axes.any (fun ax => ax ≠ 1 ∧ ax ≠ 2) ∨ axes.isEmpty then throw "unsupported:MEAN:axes"
+    let rh := axes.contains 1
+    let rw := axes.contains 2
+    let i := inId op 0
+    let o := outId op 0
+    let dt := g.dtype o
+    match g.scales i, g.scales o with
+    | [si], [so] =>
+      let ratio := f32ToFloat si / f32ToFloat so
+      let oh := if rh then 1 else H
+      let ow := if rw then 1 else W
+      let cnt := (if rh then H else 1) * (if rw then W else 1)
+      let mut out : Array Int := Array.mkEmpty (oh * ow * C)
+      for oy in [0:oh] do
+        for ox in [0:ow] do
+          for c in [0:C] do
+            let s := sumRange (if rh then H else 1) fun y => sumRange (if rw then W else 1) fun x =>
+              at3 a W C (if rh then y else oy) (if rw then x else ox) c - g.zp i
+            let v := Float.ofInt s / Float.ofNat cnt * ratio
+            out := out.push (clamp ((Float.round v).toInt64.toInt + g.zp o) dt.lo dt.hi)
+      let os := g.shape o
+      if prod os ≠ out.size then throw "mean: output shape"
+      return [{ shape := os, data := out }]
+    | _, _ => throw "unsupported:MEAN:quantisation"
   | "RESHAPE" | "SQUEEZE" | "EXPAND_DIMS" =>
     let a ← getIn env op 0
     let os := g.shape (outId op 0)
@@ -551,7 +675,6 @@ The harness supplies quantised multipliers and activation ranges (computed with 
 here they are recomputed with exact rational arithmetic from the float32 bit patterns of the tensor scales
 (`Requant.roundTo`, `QuantizeMultiplier`) and compared, so the reference does not rest on either alone. -/
 
-def Graph.scales (g : Graph) (t : Nat) : List Nat := (g.tensors[t]?.map (·.scales)).getD []
 def Graph.scale1 (g : Graph) (t : Nat) : Except String Nat :=
   match g.scales t with
   | [s] => pure s
@@ -582,6 +705,17 @@ def verifyParams (g : Graph) (op : OpDef) : Except String Unit := do
         | _ => match ws[c]? with | some w => pure w | none => throw "conv: weight scale count"
       expectEq s!"{op.kind} multiplier {c}" (some (ms.getD c 0, ss.getD c 0)) (if u8 then qmConvFloatProduct si w so else qmConvDouble si w so)
     actCheck (pI op 0 5) (pI op 0 6) (if op.kind == "CONV_2D" then pN op 0 7 else pN op 0 8)
+  | "TRANSPOSE_CONV" =>
+    let si ← g.scale1 (inId op 1)
+    let so ← g.scale1 o
+    let ws := g.scales (inId op 0)
+    let u8 := g.dtype (inId op 1) == .u8
+    for c in [0:(grp op 1).length] do
+      let w ← match ws with
+        | [w] => pure w
+        | _ => match ws[c]? with | some w => pure w | none => throw "tconv: weight scale count"
+      expectEq s!"TRANSPOSE_CONV multiplier {c}" (some ((grp op 1).getD c 0, (grp op 2).getD c 0))
+        (if u8 then qmConvFloatProduct si w so else qmConvDouble si w so)
   | "FULLY_CONNECTED" =>
     expectEq "FULLY_CONNECTED multiplier" (some (pI op 0 2, pI op 0 3))
       (qmConvFloatProduct (← g.scale1 (inId op 0)) (← g.scale1 (inId op 1)) (← g.scale1 o))
